@@ -255,7 +255,7 @@ func hdr(maj byte, n uint64) []byte {
 
 func TestCheck(t *testing.T) {
 	r := vp.New("C10", "exploration",
-		"messages: {CIDv0, CIDv1 x 3 codecs x 3 hash functions} x {every list of 0..3 addresses over a 5-symbol alphabet incl. unknown-protocol, empty and 300-byte strings} x {extra data nil/empty/1/24/256 bytes} x {orig peer absent/present}, CBOR and JSON round trips, the CBOR decoder also fed through readers that deliver one byte / half / 7 bytes per Read or the error together with the last data; HTTP sender (CBOR and JSON) and pubsub sender for every address list of <=3 over {3 valid, 1 unknown-protocol}, the HTTP sender also with extra data whose only, first or last byte is each of the 256 byte values (lists of <=1 address), with an original-peer field and with extra data carried by the message instead of the sender option, one message value sent through a sender with extra data of its own and then through a plain one, and one sender used for sequences of JSON and CBOR announcements (the declared content type is checked on every request), and the pubsub sender that makes its own topic from a host and a topic name, with and without extra data of its own and of the message, read by a second host joined to the topic, and the receiver's own republications of bursts of 2..4 direct announcements (WithResend), read from a second subscription after all were sent; CBOR decoder: for each corpus encoding every single-byte substitution, every truncation, every CBOR header token at every offset (replacing 0 or 1 byte) singly and a reduced token set in adjacent pairs, lengths at and just above each cap, all byte strings of length <=2; after every rejected input the worker decodes a fixed valid message and compares it. Non-trivial: messages with at least one address or extra data; decoder inputs other than the corpus.",
+		"messages: {CIDv0, CIDv1 x 3 codecs x 3 hash functions} x {every list of 0..3 addresses over a 5-symbol alphabet incl. unknown-protocol, empty and 300-byte strings} x {extra data nil/empty/1/24/256 bytes} x {orig peer absent/present}, CBOR and JSON round trips, the CBOR decoder also fed through readers that deliver one byte / half / 7 bytes per Read or the error together with the last data; HTTP sender (CBOR and JSON) and pubsub sender for every address list of <=3 over {3 valid, 1 unknown-protocol}, the HTTP sender also with extra data whose only, first or last byte is each of the 256 byte values (lists of <=1 address), with an original-peer field and with extra data carried by the message instead of the sender option, one message value sent through a sender with extra data of its own and then through a plain one, and one sender used for sequences of JSON and CBOR announcements (the declared content type is checked on every request), and the pubsub sender that makes its own topic from a host and a topic name, with and without extra data of its own and of the message, read by a second host joined to the topic, and the receiver's own republications of bursts of 2..4 direct announcements (WithResend), read from a second subscription after all were sent, and announcements taken from a receiver (address filtering off and on) re-read after later ones were handled; CBOR decoder: for each corpus encoding every single-byte substitution, every truncation, every CBOR header token at every offset (replacing 0 or 1 byte) singly and a reduced token set in adjacent pairs, lengths at and just above each cap, all byte strings of length <=2; after every rejected input the worker decodes a fixed valid message and compares it. Non-trivial: messages with at least one address or extra data; decoder inputs other than the corpus.",
 		"equality treats nil and empty byte fields alike",
 		"allocation bound: input length + 2 x ByteArrayMaxLen + 256 KiB",
 		"decoder inputs run in a worker subprocess with a 6 GiB address-space limit",
@@ -902,6 +902,7 @@ func checkSenders(r *vp.Recorder) {
 
 	ownTopicSender(r, pub, c)
 	receiverRepublications(r, pub)
+	receiverHeldAnnouncements(r, pub)
 
 	// pubsub sender on a single-host topic
 	key := "p2psend"
@@ -1094,6 +1095,85 @@ func receiverRepublications(r *vp.Recorder, pub *fixture.Identity) {
 			}
 			r.Outcome("receiver-republications-ok")
 		}()
+	}
+}
+
+// receiverHeldAnnouncements: what a receiver hands to its consumer is the
+// consumer's: an announcement taken with Next reads the same after the
+// receiver has handled further announcements. Receivers with address
+// filtering off and on (public addresses only, so that nothing is removed),
+// bursts of 2..4 direct announcements with address lists of differing and of
+// equal lengths.
+func receiverHeldAnnouncements(r *vp.Recorder, pub *fixture.Identity) {
+	for _, filter := range []bool{false, true} {
+		for burst := 2; burst <= 4; burst++ {
+			for _, shape := range []string{"longer-first", "shorter-first", "equal"} {
+				key := fmt.Sprintf("receiver-held-announcements|filter-ips=%v|burst%d|%s", filter, burst, shape)
+				if !r.Mine(key) {
+					continue
+				}
+				r.Eval(key, true)
+				rc, err := announce.NewReceiver(nil, "", announce.WithFilterIPs(filter), announce.WithAllowPeer(func(peer.ID) bool { return true }))
+				if err != nil {
+					r.Violation("receiver-held:new-error", key, err.Error(), nil)
+					continue
+				}
+				ctx, cancel := context.WithTimeout(context.Background(), 20*time.Second)
+				all := cids()
+				var held []announce.Announce
+				var want [][]string
+				ok := true
+				for i := 0; i < burst && ok; i++ {
+					n := 2
+					switch shape {
+					case "longer-first":
+						n = burst - i
+					case "shorter-first":
+						n = i + 1
+					}
+					var addrs []multiaddr.Multiaddr
+					var ws []string
+					for j := 0; j < n; j++ {
+						a := multiaddr.StringCast(fmt.Sprintf("/ip4/8.8.%d.%d/tcp/%d/http", i+1, j+1, 3000+i))
+						addrs = append(addrs, a)
+						ws = append(ws, a.String())
+					}
+					if err := rc.Direct(ctx, all[(i+1)%len(all)], peer.AddrInfo{ID: pub.ID, Addrs: addrs}); err != nil {
+						r.Violation("receiver-held:direct-error", key, err.Error(), nil)
+						ok = false
+						break
+					}
+					a, err := rc.Next(ctx)
+					if err != nil {
+						r.Violation("receiver-held:next-error", key, err.Error(), nil)
+						ok = false
+						break
+					}
+					held = append(held, a)
+					want = append(want, ws)
+				}
+				cancel()
+				rc.Close()
+				if !ok {
+					continue
+				}
+				bad := false
+				for i, a := range held {
+					var got []string
+					for _, m := range a.Addrs {
+						got = append(got, m.String())
+					}
+					if fmt.Sprint(got) != fmt.Sprint(want[i]) || !a.Cid.Equals(all[(i+1)%len(all)]) {
+						r.Violation("receiver-held:announcement-changed-after-later-ones-were-handled", key, fmt.Sprintf("announcement %d of %d (address filtering %v), read after all had been handled: addresses %v, announced %v", i, burst, filter, got, want[i]), nil)
+						bad = true
+						break
+					}
+				}
+				if !bad {
+					r.Outcome("receiver-held-ok")
+				}
+			}
+		}
 	}
 }
 
